@@ -2,10 +2,10 @@
 import json
 
 PLAN = {
-    'C01': ['harness.fe_typeargs', 'harness.fe_defaults', 'harness.c11_layout'],
-    'C02': ['harness.fe_typeargs', 'harness.fe_defaults'],
-    'C03': ['harness.fe_typeargs', 'harness.fe_defaults'],
-    'C10': ['harness.fe_defaults'],
+    'C01': ['harness.fe_typeargs', 'harness.fe_defaults', 'harness.fe_examples', 'harness.c11_layout'],
+    'C02': ['harness.fe_typeargs', 'harness.fe_defaults', 'harness.fe_examples'],
+    'C03': ['harness.fe_typeargs', 'harness.fe_defaults', 'harness.fe_examples'],
+    'C10': ['harness.fe_defaults', 'harness.fe_examples'],
     'C04': ['harness.c04_roundtrip'],
     'C05': ['harness.c04_roundtrip'],
     'C06': ['harness.c06_decoder'],
@@ -24,6 +24,7 @@ NEEDS_FIXTURES = {
     'harness.c07_evolution': True,
     'harness.c13_privacy': True,
     'harness.c14_client': True,
+    'harness.fe_examples': True,
 }
 
 
